@@ -197,8 +197,9 @@ def case_solve(ctx, rng, idx):
     if hasattr(s, "_rs"):
         s._rs.seed(int(rng.integers(0, 2 ** 31)))
     Pmode = str(rng.choice(["none", "scalar", "vector"]))
-    P = None if Pmode == "none" else (float(10.0 ** rng.uniform(-1, 2)) if Pmode == "scalar"
-                                      else 10.0 ** rng.uniform(-1, 2, size=K))
+    phi = 4 if rng.random() < 0.3 else 2         # powers up to 1e4 (a third of the cases)
+    P = None if Pmode == "none" else (float(10.0 ** rng.uniform(-1, phi)) if Pmode == "scalar"
+                                      else 10.0 ** rng.uniform(-1, phi, size=K))
     init = "n/a"
     if name != "closed":
         opts = ["random", "svd", "fix"]
